@@ -112,6 +112,18 @@ func (e *Exec) setupTracks() {
 			if ti.sig == nil {
 				e.unsupported("track %s: func-typed field %s not found", tr.Name, tr.Target)
 			}
+		case "global":
+			i := strings.LastIndex(tr.Target, ".")
+			for _, p := range e.c.P.Prog.AllPackages() {
+				if shortPath(p.Pkg.Path()) == tr.Target[:i] {
+					if g := p.Var(tr.Target[i+1:]); g != nil {
+						ti.sig, _ = deref(g.Type()).Underlying().(*types.Signature)
+					}
+				}
+			}
+			if ti.sig == nil {
+				e.unsupported("track %s: func-typed global %s not found", tr.Name, tr.Target)
+			}
 		case "fnparam":
 			for _, p := range e.fn.Params {
 				if p.Name() == tr.Target {
@@ -158,6 +170,12 @@ func (e *Exec) matchTracks(common *ssa.CallCommon) []*trackInfo {
 		case "field":
 			if !common.IsInvoke() {
 				if key := fieldOfCallee(common.Value); key == ti.target {
+					out = append(out, ti)
+				}
+			}
+		case "global":
+			if u, ok := common.Value.(*ssa.UnOp); ok && u.Op == token.MUL {
+				if g, ok := u.X.(*ssa.Global); ok && shortPath(g.Pkg.Pkg.Path())+"."+g.Name() == ti.target {
 					out = append(out, ti)
 				}
 			}
@@ -477,7 +495,7 @@ func (e *Exec) doCall(common *ssa.CallCommon, fnv Val, recv *Val, args []Val, st
 				c.oblige("panic-effect", fmt.Sprintf("callee-nopanic@call%d:%s", ord, lastSeg(ci.name)), st.pc, not(pc), "callee's panics-condition is excluded", e.pos(pos))
 			}
 			st.pc = c.namePC(and(st.pc, not(pc)))
-		} else if con.Flags["maypanic"] && e.nopanic {
+		} else if con.Flags["maypanic"] && e.nopanic && !e.con.Flags["propagates-panics"] {
 			c.oblige("panic-effect", fmt.Sprintf("callee-may-panic@call%d:%s", ord, lastSeg(ci.name)), st.pc, "false", "call to a maypanic callee in a nopanic function: "+ci.name, e.pos(pos))
 		}
 		// effects
